@@ -40,6 +40,7 @@ def parseKind : Sexp → Option ErrKind
   | .atom "connptr" => some .connPtr
   | .atom "wrapped" => some .wrapped
   | .atom "other" => some .other
+  | .atom "poolclosed" => some .other    -- ErrConnectionPoolClosed of a real, unopened pool (Get ops only)
   | _ => none
 
 def parseOp (now : Int) : Sexp → Option Op
